@@ -45,6 +45,7 @@ type Config struct {
 	RealLogger  bool // execute rogger.Logger methods instead of treating them as no-ops
 	StubError   []string // functions (name prefixes) replaced by: zero results with an arbitrary nil / non-nil error
 	SkipInit    []string // repo packages whose initialisers are not run (globals stay zero)
+	ConcretizeDiv []string // function-name prefixes: integer quotients computed there are case-split by value
 	GoAsCall    []string // function-name prefixes: `go f()` runs f synchronously (program order = hand-off order)
 }
 
